@@ -352,6 +352,7 @@ func genClient(t *rapid.T, cfg *Config, o genOpts) Client {
 	c.EOFWithData = rapid.Bool().Draw(t, "eof_with_data")
 	c.GetBase64 = rapid.Bool().Draw(t, "get_b64")
 	c.GetPadded = rapid.Bool().Draw(t, "get_padded")
+	c.GetVersionHeader = rapid.IntRange(0, 2).Draw(t, "get_version_header") == 0
 	if o.segmentation {
 		c.ReadSplits = genSplits(t, "read_splits", 1)
 	}
